@@ -50,19 +50,39 @@ Proof. vm_compute. reflexivity. Qed.
 Print Assumptions typep_agrees_with_subtypep_now.
 Theorem agreeing_kinds_now :
   filter (fun k => is_class classes (type_of_t kinds k)) (names kinds) =
-  ["fixnum"; "bignum"; "ratio"; "single-float"; "double-float"; "character"; "string"; "symbol"; "vector"].
+  ["nil"; "fixnum"; "bignum"; "ratio"; "single-float"; "double-float"; "character"; "string"; "symbol"; "empty-list"; "list"; "cons";
+   "vector"].
 Proof. vm_compute. reflexivity. Qed.
 Print Assumptions agreeing_kinds_now.
 
-(* outside that guard: t is a type of every object but not a class; list is the type-of of a list but not a
-   class, so subtypep is not even reflexive on it (known findings) *)
+(* short-float and byte are the types they are Go aliases of, for typep and for subtypep alike (findings
+   C16-short-float-is-single-float and C16-byte-is-octet, repaired by C16-6) *)
+Theorem alias_types_now :
+  typep_t kinds "single-float" "short-float" = true /\ typep_t kinds "single-float" "SHORT-FLOAT" = true /\
+  typep_t kinds "double-float" "short-float" = false /\ typep_t kinds "fixnum" "byte" = false /\
+  subtypep_t classes "single-float" "short-float" = true /\ subtypep_t classes "short-float" "single-float" = true /\
+  subtypep_t classes "short-float" "float" = true /\ subtypep_t classes "byte" "octet" = true /\
+  subtypep_t classes "octet" "byte" = true /\ subtypep_t classes "fixnum" "byte" = false.
+Proof. vm_compute. repeat split; reflexivity. Qed.
+Print Assumptions alias_types_now.
+
+(* outside that guard: t is a type of every object but not a class (known finding C16-t-is-not-a-class) *)
 Theorem typep_subtypep_t_refuted :
   typep_t kinds "fixnum" "t" = true /\ subtypep_t classes (type_of_t kinds "fixnum") "t" = false.
 Proof. vm_compute. split; reflexivity. Qed.
 Print Assumptions typep_subtypep_t_refuted.
-Theorem typep_subtypep_list_refuted :
+
+(* list, cons and null are classes (finding C16-list-cons-null-are-not-classes, repaired by C16-7) and nil has the
+   types of the empty list (finding C16-nil-is-only-null, repaired by C16-8): subtypep is reflexive on them and
+   agrees with typep *)
+Theorem list_cons_null_classes_now :
   type_of_t kinds "list" = "list" /\ typep_t kinds "list" "sequence" = true /\
-  subtypep_t classes "list" "sequence" = false /\ subtypep_t classes "list" "list" = false /\
-  subtypep_t classes "cons" "cons" = false /\ subtypep_t classes "null" "null" = false.
+  subtypep_t classes "list" "sequence" = true /\ subtypep_t classes "list" "list" = true /\
+  subtypep_t classes "cons" "cons" = true /\ subtypep_t classes "null" "null" = true /\
+  subtypep_t classes "cons" "list" = true /\ subtypep_t classes "null" "list" = true /\
+  subtypep_t classes "list" "cons" = false /\ subtypep_t classes "null" "symbol" = false /\
+  type_of_t kinds "nil" = "null" /\ typep_t kinds "nil" "null" = true /\ typep_t kinds "nil" "list" = true /\
+  typep_t kinds "nil" "sequence" = true /\ typep_t kinds "nil" "t" = true /\ typep_t kinds "nil" "symbol" = false /\
+  typep_t kinds "nil" "cons" = false /\ kind_agrees_but_t classes kinds "nil" = true /\ kind_agrees_but_t classes kinds "cons" = true.
 Proof. vm_compute. repeat split; reflexivity. Qed.
-Print Assumptions typep_subtypep_list_refuted.
+Print Assumptions list_cons_null_classes_now.
